@@ -7,6 +7,7 @@ import (
 	"os"
 	"os/exec"
 	"path/filepath"
+	"regexp"
 	"sort"
 	"strings"
 	"sync"
@@ -28,6 +29,8 @@ type Mutant struct {
 	Why     string
 }
 
+// Edit: one replacement; an Old that starts with "re:" is a regular expression, every match is replaced
+// (at least one must exist)
 type Edit struct{ File, Old, New string }
 
 var allMutants []*Mutant
@@ -52,6 +55,9 @@ func overlayFor(repo string, m *Mutant) (ov map[string][]byte, stale bool, err e
 	ov = map[string][]byte{}
 	edits := append([]Edit{{m.File, m.Old, m.New}}, m.Edits...)
 	for _, e := range edits {
+		if e.Old == "" && len(m.Edits) > 0 {
+			continue
+		}
 		path := filepath.Join(repo, e.File)
 		src, ok := ov[path]
 		if !ok {
@@ -59,6 +65,14 @@ func overlayFor(repo string, m *Mutant) (ov map[string][]byte, stale bool, err e
 			if err != nil {
 				return nil, true, nil
 			}
+		}
+		if strings.HasPrefix(e.Old, "re:") {
+			re := regexp.MustCompile(e.Old[3:])
+			if !re.Match(src) {
+				return nil, true, nil
+			}
+			ov[path] = re.ReplaceAll(src, []byte(e.New))
+			continue
 		}
 		if bytes.Count(src, []byte(e.Old)) != 1 {
 			return nil, true, nil
@@ -173,6 +187,7 @@ func runThorough(prop, repo string, base *Ctx) (extra map[string]any, fails []st
 		case r.out.Stale:
 			nStale++
 			row["result"] = "stale (edit no longer applies; not a failure)"
+			fmt.Printf("NOTE property=%s stale mutant %s: its edit no longer applies to this tree (not a failure; the table needs an update)\n", prop, r.m.Name)
 		case r.out.LoadErr != "":
 			fails = append(fails, fmt.Sprintf("mutant %s does not type-check: %s", r.m.Name, r.out.LoadErr))
 			row["result"] = "does not compile"
